@@ -126,17 +126,28 @@ def _(self: QuestionK, survey: SurveyQ, xml_node: XNode, tag: str, nested_items:
 
 # ---------------------------------------------------------------- body control skeleton (C02 ref, C04 tag/attributes)
 
+SurveyS = Obj("Survey", name=str)
+
+
 @spec
-def LabelHintNodes(e: ElemK, survey: Ctx) -> List[XNode]:
-    """label and hint nodes of the control (SurveyElement.xml_label_and_hint; the nodes themselves: C06/C07 kernels)."""
+def LabelNode(e: ElemK, survey: SurveyS) -> XNode:
+    """The label element of a row (SurveyElement.xml_label, proved in contracts/survey_element.py)."""
     uninterpreted()
 
 
-@contract("SurveyElement.xml_label_and_hint", module="pyxform.survey_element")
-def _(self: ElemK, survey: SV) -> List[XNode]:
-    trusted("label first, hint second, each built by the proved xml_label / xml_hint; refuses rows without label or hint")
-    ensures(result == LabelHintNodes(self, ctx_of(survey)))
-    may_raise(PyXFormError, when=True)
+@spec
+def HintNode(e: ElemK, survey: SurveyS) -> XNode:
+    """The hint element of a row (SurveyElement.xml_hint, proved in contracts/survey_element.py)."""
+    uninterpreted()
+
+
+@spec
+def LabelHintNodes(e: ElemK, survey: SurveyS) -> List[XNode]:
+    """C04: a control starts with its label, followed by its hint when the row has a hint or a guidance hint
+    (SurveyElement.xml_label_and_hint, proved in contracts/survey_element.py)."""
+    if bool(e.hint) or bool(e.guidance_hint):
+        return [LabelNode(e, survey), HintNode(e, survey)]
+    return [LabelNode(e, survey)]
 
 
 @contract("Question._build_xml")
@@ -148,7 +159,7 @@ def _(self: QuestionK, survey: SurveyQ) -> XNode:
     requires(self.control is not None and "tag" in Cd)          # every type-table entry with a control has a tag
     ensures(result.nodeType == 1 and result.tagName == Cd["tag"])
     # C04: label and hint come first, nothing else is a child yet
-    ensures(result.kids == LabelHintNodes(self, ctx_of(survey)))
+    ensures(result.kids == LabelHintNodes(self, survey))
     # C02: the control's ref is the question's own path (an author-written body::ref column is an explicit override)
     ensures("ref" in result.attrs and implies("ref" not in Cd, result.attrs["ref"] == XPathOf(self)))
     # C04: appearance / parameter-derived attributes of the row, after reference substitution; `tag` is not an attribute
@@ -158,7 +169,7 @@ def _(self: QuestionK, survey: SurveyQ) -> XNode:
 
     @loop(0, index="q")
     def _():
-        invariant(result.nodeType == 1 and result.tagName == Cd["tag"] and result.kids == LabelHintNodes(self, ctx_of(survey)))
+        invariant(result.nodeType == 1 and result.tagName == Cd["tag"] and result.kids == LabelHintNodes(self, survey))
         invariant("ref" in result.attrs)
         invariant(implies(not exists(0, q, lambda r: keys(Cd)[r] == "ref"), result.attrs["ref"] == XPathOf(self)))
         invariant(forall(0, q, lambda r: keys(Cd)[r] == "tag" or (keys(Cd)[r] in result.attrs
